@@ -35,15 +35,12 @@ func c05TableCase() []string {
 	return ops
 }
 
-// op mix without the requests that can hang a case
+// the request mix of C06 plus an occasional CompactSwamp
 func c05Op(rng *rand.Rand) string {
-	for {
-		o := c06RandOp(rng, true)
-		if strings.HasPrefix(o, "u32del") && rng.Intn(4) != 0 {
-			continue
-		}
-		return o
+	if rng.Intn(30) == 0 {
+		return "compact"
 	}
+	return c06RandOp(rng, true)
 }
 
 func c05Gen(rng *rand.Rand, tier string, w *bufio.Writer) {
@@ -65,10 +62,59 @@ func c05Gen(rng *rand.Rand, tier string, w *bufio.Writer) {
 	emit("p0", []string{"set 11 k0|u8:1|||||", "inc u8 k0 1 eq:5 - 0||1|u2|b3600000000000", "get k0", "restart", "get k0"})
 	emit("p1", []string{"set 11 k0|u8:1|||||", "restart", "inc u8 k0 1 eq:5 - 0||1|u2|b3600000000000", "get k0", "restart", "get k0"})
 	emit("mem", []string{"set 11 k0|i64:5|||||", "restart", "issw", "set 11 k0|i64:0|||||", "get k0"})
+	// requests on records that came back from the file
+	emit("p1", []string{"set 11 k0|str:68656c6c6f|a1000000000|u1||| k1|i64:7||||| k2|u32s:1,2|||||", "close", "shift k0", "inc i64 k1 1 - - -", "push k2:3", "close", "getall", "shift k1 k2", "issw"})
 	// delete, re-create and delete a persisted key within one write interval: the queued delete is
 	// replaced by the new treasure, which is then dropped from the write buffer unwritten
 	emit("p1", []string{"set 11 k0|i64:5||||| k1|i64:6|||||", "close", "del k0", "inc i64 k0 1 - - -", "del k0", "getall", "close", "getall", "count"})
 	emit("p0", []string{"set 11 k0|i64:5||||| k1|i64:6|||||", "close", "del k0", "inc i64 k0 1 - - -", "del k0", "getall", "close", "getall", "count"})
+	// a reloaded record receives a Set that changes nothing but the modification stamps (every "changed"
+	// flag of the live object is clear at that point, so only the stamp comparison can queue the rewrite)
+	for _, k := range []string{"p1", "p0"} {
+		emit(k, []string{"set 11 k0|i64:5|a1000000000|u1|a2000000000|u1| k1|str:61|||||", "close",
+			"set 11 k0|i64:5|||a3000000000|u2| k1|str:61||||u3|", "get k0 k1", "close", "get k0 k1",
+			"set 11 k0|i64:5|||a4000000000|| k1|str:61|||a5000000000||", "restart", "getall"})
+	}
+	// CompactSwamp in the middle of a session: ten records written, all rewritten (half of the file is dead
+	// entries), the forced compaction, then a create, an update and a delete that must survive the reload.
+	// p1t: the ticker has flushed before the compaction (writer open, buffer empty); p0: every write is flushed
+	// at once; p1: everything is still buffered
+	{
+		var a, b []string
+		for i := 0; i < 10; i++ {
+			a = append(a, fmt.Sprintf("c%d|i64:%d|a1000000000||||", i, i+1))
+			b = append(b, fmt.Sprintf("c%d|i64:%d|||a2000000000||", i, i+101))
+		}
+		tail := []string{"compact", "set 11 late|i64:4242|a3000000000||||", "set 11 c0|i64:999|||a3000000000||", "del c1", "getall"}
+		ops := append([]string{"set 11 " + strings.Join(a, " "), "wait 2500", "set 11 " + strings.Join(b, " "), "wait 2500"}, tail...)
+		emit("p1t", append(append([]string{}, ops...), "wait 2500", "close", "getall", "count"))
+		ops = append([]string{"set 11 " + strings.Join(a, " "), "set 11 " + strings.Join(b, " ")}, tail...)
+		emit("p0", append(append([]string{}, ops...), "close", "getall", "count"))
+		emit("p1", append(append([]string{}, ops...), "close", "getall", "compact", "inc i64 c0 1 - - -", "restart", "getall"))
+	}
+	// keys the file format cannot hold (the entry header stores the key length in 16 bits and refuses an empty
+	// key): the empty key and a 65536-byte key next to the longest storable one (65535 bytes) and ordinary keys
+	for _, k := range []string{"p1", "p0"} {
+		emit(k, []string{"set 11 a|i64:1||||| |i64:2||||| x@65536|i64:4||||| x@65535|i64:5||||| z|i64:3|||||", "getall", "count", "close", "getall", "count",
+			"iske x@65535", "iske x@65536", "iske a"})
+	}
+	// the write ticker (kind p1t, 1 s): the same delete / re-create / delete around ticker runs, zero-like
+	// values written by the ticker rather than by close, and one random history; a wait of 2.5 s
+	// precedes every request whose outcome depends on what the ticker has written
+	emit("p1t", []string{"set 11 k0|i64:5||||| k1|i64:6|||||", "wait 2500", "del k0", "inc i64 k0 1 - - -", "wait 2500", "del k0", "getall", "wait 2500", "close", "getall", "count"})
+	emit("p1t", []string{"set 11 k0|i64:0|a1000000000|u1||| k1|u32s:||||| k2|str:||||| k3|void|||||", "wait 2500", "restart", "getall", "set 11 k0|i64:7|||||", "del k1", "wait 2500", "close", "getall"})
+	{
+		var ops []string
+		for j := 0; j < 8; j++ {
+			o := c05Op(rng)
+			if v := strings.SplitN(o, " ", 2)[0]; v == "del" || v == "shift" || v == "u32del" {
+				ops = append(ops, "wait 2500")
+			}
+			ops = append(ops, o)
+		}
+		ops = append(ops, "getall", "wait 2500", "close", "getall", "count")
+		emit("p1t", ops)
+	}
 	readBack := func() []string {
 		return []string{"getall", "count", "get " + strings.Join(c06Keys, " "), "issw"}
 	}
@@ -87,6 +133,30 @@ func c05Gen(rng *rand.Rand, tier string, w *bufio.Writer) {
 		}
 		ops = append(ops, "getall", closer)
 		ops = append(ops, readBack()...)
+		if rng.Intn(3) == 0 {
+			// re-send values of earlier Sets to the reloaded records with nothing but new stamps
+			last := map[string]string{}
+			for _, o := range ops {
+				if f := strings.Split(o, " "); f[0] == "set" {
+					for _, it := range f[2:] {
+						if p := strings.Split(it, "|"); len(p) == 7 {
+							last[p[0]] = p[1]
+						}
+					}
+				}
+			}
+			var items []string
+			for _, k := range c06Keys {
+				if v, ok := last[k]; ok && rng.Intn(2) == 0 {
+					items = append(items, fmt.Sprintf("%s|%s|||%s|%s|", k, v,
+						c06Pick(rng, []string{"", "a7000000000", "a8000000000"}), c06Pick(rng, []string{"", "u7", "u8"})))
+				}
+			}
+			if len(items) > 0 {
+				ops = append(ops, "set 11 "+strings.Join(items, " "), "getall", closer)
+				ops = append(ops, readBack()...)
+			}
+		}
 		if rng.Intn(3) == 0 {
 			for j, l := 0, 3+rng.Intn(8); j < l; j++ {
 				ops = append(ops, c05Op(rng))
